@@ -631,8 +631,7 @@ func c23core(k *eng.Check, doCommit *ssa.Function, full bool) {
 			} else if len(cc.Args) > 0 {
 				recv = cc.Args[0]
 			}
-			rc, ok := c23strip(recv).(*ssa.Call)
-			return ok && strings.HasSuffix(eng.CalleeName(rc), ".TxLocks")
+			return c23fromTxLocks(recv, 0)
 		}
 	}
 	lockOK := k.OkCalls(L, "txlock", isTxLock(c23mLock))
@@ -640,6 +639,28 @@ func c23core(k *eng.Check, doCommit *ssa.Function, full bool) {
 	reads := eng.CallSet(L, c23mResolveWS)
 	k.OnlyAfter("read-inside-lock", L, "the persisted working set is read only after the commit lock was acquired", reads, 1, lockOK)
 	unlocks := eng.Calls(L, isTxLock(c23mUnlock), true)
+	// an Unlock inside a literal that L only defers is a deferred Unlock of L
+	inDeferredLit := map[ssa.CallInstruction]bool{}
+	for _, b := range L.Blocks {
+		for _, in := range b.Instrs {
+			mc, ok := in.(*ssa.MakeClosure)
+			if !ok || mc.Referrers() == nil || len(*mc.Referrers()) == 0 {
+				continue
+			}
+			onlyDeferred := true
+			for _, r := range *mc.Referrers() {
+				if _, isD := r.(*ssa.Defer); !isD {
+					onlyDeferred = false
+				}
+			}
+			if lit, isF := mc.Fn.(*ssa.Function); isF && onlyDeferred {
+				for _, u := range eng.Calls(lit, isTxLock(c23mUnlock), true) {
+					unlocks = append(unlocks, u)
+					inDeferredLit[u] = true
+				}
+			}
+		}
+	}
 	if len(unlocks) < 1 {
 		k.Fail("unlock-after-write", eng.Name(L)+"#Unlock", "the commit lock is released", c.Pos(L.Pos()), "no TxLocks().Unlock in the attempt closure", nil)
 	}
@@ -652,7 +673,7 @@ func c23core(k *eng.Check, doCommit *ssa.Function, full bool) {
 	}
 	for i, u := range unlocks {
 		key := fmt.Sprintf("%s#Unlock%d", eng.Name(L), i+1)
-		if _, isDefer := u.(*ssa.Defer); !isDefer {
+		if _, isDefer := u.(*ssa.Defer); !isDefer && !inDeferredLit[u] {
 			hits := eng.Reach(L, []eng.Point{eng.After(u.(ssa.Instruction))}, eng.UnionOf(writes, reads), nil)
 			k.Require("unlock-after-write", key, "a direct (non-deferred) Unlock is never followed by the in-lock read or a write", len(hits) == 0, c.InstrPos(u.(ssa.Instruction)), "the lock is released before the working set is read/written")
 		} else {
@@ -661,7 +682,7 @@ func c23core(k *eng.Check, doCommit *ssa.Function, full bool) {
 		a := u.Common().Args
 		same := len(a) > 0 && len(lockKeys) > 0
 		for _, lk := range lockKeys {
-			if len(a) == 0 || !c23sameCell(lk, a[len(a)-1]) {
+			if len(a) == 0 || !c23sameCell(c23outerCell(lk), c23outerCell(a[len(a)-1])) {
 				same = false
 			}
 		}
@@ -1367,4 +1388,44 @@ func c23headMerge(k *eng.Check, fn *ssa.Function, impls *c23impls) {
 		}
 	}
 	k.OnlyAfter("head-merge-result-committed", fn, "after the head merge succeeded, the working set handed to the store carries the merged staged root (WithStagedRoot)", stSet, 1, withStaged, c23starts(eng.OkCut(m))...)
+}
+
+// c23fromTxLocks: v is the result of a TxLocks() call, possibly kept in a local and captured by a literal.
+func c23fromTxLocks(v ssa.Value, depth int) bool {
+	if depth > 3 || v == nil {
+		return false
+	}
+	return eng.Slice(v, false, func(x ssa.Value) bool {
+		if rc, ok := x.(*ssa.Call); ok && strings.HasSuffix(eng.CalleeName(rc), ".TxLocks") {
+			return true
+		}
+		if fv, ok := x.(*ssa.FreeVar); ok {
+			if o := eng.ClosureOrigin(fv); o != nil && o != ssa.Value(fv) {
+				// the captured cell: look at what the enclosing function stores into it
+				if a, isA := o.(*ssa.Alloc); isA {
+					for _, st := range eng.StoresTo(a) {
+						if c23fromTxLocks(st.Val, depth+1) {
+							return true
+						}
+					}
+					return false
+				}
+				return c23fromTxLocks(o, depth+1)
+			}
+		}
+		return false
+	})
+}
+
+// c23outerCell: a load of a captured variable inside a literal is rewritten as the load's cell in the enclosing
+// function, so that it can be compared with uses of the same variable there.
+func c23outerCell(v ssa.Value) ssa.Value {
+	if ld, ok := c23strip(v).(*ssa.UnOp); ok && ld.Op == token.MUL {
+		if fv, isFV := ld.X.(*ssa.FreeVar); isFV {
+			if o := eng.ClosureOrigin(fv); o != nil {
+				return &ssa.UnOp{Op: token.MUL, X: o}
+			}
+		}
+	}
+	return v
 }
